@@ -81,6 +81,16 @@ CHECKS = {
    note="For Hornuss, DCT2x2, DCT4x4, DCT4x8/8x4 and AFV the reference does not model the coefficient arrangement: they are covered by path agreement, superposition inputs and the DC definition only. Rectangular-DCT coefficient layout is inferred from one impulse. LF injection is not isolated here.",
    technique="exhaustive basis-vector enumeration (complete by linearity) vs f64 definition and across code paths",
    design_ref="4/C16", engine="mc"),
+ "C18": dict(category="exploration",
+   text="Profiles (byte strings of lengths 0..133, hand-built profiles hitting every tag shortcut and header prediction, decoder-synthesised profiles, the 557 KB real profile) x tag-list forms {none, explicit, shortcuts} x command plans: every single command, every ordered pair of command kinds (raw, shuffle 2/4, predicted runs of width 1/2/4 x order 0/1/2 x stride w/w+1/8) x split points on a critical set, three-command plans, XYZ/type-string commands; decode_icc(encoded) must equal the profile byte for byte. Plus ~25 classes of inconsistent encodings per profile that must be rejected, and every profile through the whole image path (original_icc) under 5 entropy-coder configurations.",
+   note="Trusted: jxlw::icc (plan-driven encoder from the format's ICC annex). Tag entries pointing beyond the profile end are excluded (the decoder rejects them; whether the format allows them is uncertain).",
+   technique="small-scope exhaustive enumeration of ICC command plans vs independent reference encoder",
+   design_ref="4/C18", engine="mc"),
+ "C19": dict(category="exploration",
+   text="Full product of 3584 enumerated encodings ({RGB, Grey} x 8 white points x 7 primaries x 14 transfer functions x 4 intents, custom values on lattices of real chromaticities/gammas): synthesise ICC, parse back, compare per the statement. Transfer functions (sRGB, BT.709, DCI, gamma, PQ, HLG) through the public ColorTransform: linear -> curve -> linear on every 4096th (quick) / EVERY (thorough, 1.56e9 samples) f32 in [4.7e-10, 1], every slice length 1..67 (vector tails), round-trip error within per-curve tolerances and encode monotone; identity conversions bit-exact.",
+   note="Tolerances fixed from the unchanged tree with >= 4x margin (sRGB 2e-3 because its encode is a ~1.7e-4 approximation by design). Open known findings: synthesised PQ/HLG profiles are not recognised when parsed back. Gamma fields above 1.0 excluded.",
+   technique="full-product enumeration of encodings; exhaustive f32 sweep of transfer curves",
+   design_ref="4/C19", engine="mc"),
 }
 NOT_YET = "check not built yet in this round (work in progress; see DESIGN.md section 10)"
 NA = {}
